@@ -165,6 +165,7 @@ func (w *writer) codeFromTree(tree *RegexTree) (*Code, error) {
 		Caps:              w.caps,
 		Capsize:           capsize,
 		CaptureSlotInUse:  captureSlotsInUse(w.emitted, capsize),
+		UsesStartAnchor:   usesStartAnchor(w.emitted),
 		FcPrefix:          fcPrefix,
 		BmPrefix:          bmPrefix,
 		Anchors:           getAnchors(tree),
